@@ -84,3 +84,29 @@ pub proof fn lemma_vote_ptrs_step(s: Seq<(Voter, VoterVotes)>, i: int, tag: Rede
 { assert(s.take(i + 1).drop_last() =~= s.take(i)); }
 
 pub open spec fn script_mint_entries(m: ScriptMint) -> Seq<(AssetName, Int)> { match m { ScriptMint::Native(n) => n.mints.entries@, ScriptMint::Plutus(p) => p.mints.entries@ } }
+
+// ---- spending pointers: a spend redeemer's index is the position of its input in the body's input set = in the builder's ordered input map
+/// position of `input` among the first n inputs, if it is there as a script input
+pub open spec fn idx_of(vals: Seq<InEntry>, input: TransactionInput, n: int) -> Option<nat> decreases n {
+    if n <= 0 { None } else if vals[n - 1].0.input == input && vals[n - 1].1 is Some { Some((n - 1) as nat) } else { idx_of(vals, input, n - 1) }
+}
+pub open spec fn group_ptrs(vals: Seq<InEntry>, g: Seq<(TransactionInput, Option<ScriptWitnessType>)>, tag: RedeemerTag) -> Seq<PlutusWitness> decreases g.len() {
+    if g.len() == 0 { Seq::empty() } else {
+        let p = group_ptrs(vals, g.drop_last(), tag);
+        match g.last().1 { Some(ScriptWitnessType::PlutusScriptWitness(w)) => match idx_of(vals, g.last().0, vals.len() as int) { Some(i) => p.push(with_ptr(w, i, tag)), None => p }, _ => p }
+    }
+}
+pub open spec fn spend_ptrs(vals: Seq<InEntry>, t: Seq<(ScriptHash, WitEntries)>, tag: RedeemerTag) -> Seq<PlutusWitness> decreases t.len() {
+    if t.len() == 0 { Seq::empty() } else { spend_ptrs(vals, t.drop_last(), tag) + group_ptrs(vals, t.last().1@, tag) }
+}
+pub proof fn lemma_group_step(vals: Seq<InEntry>, g: Seq<(TransactionInput, Option<ScriptWitnessType>)>, j: int, tag: RedeemerTag)
+    requires 0 <= j < g.len()
+    ensures group_ptrs(vals, g.take(j + 1), tag) == (match g[j].1 { Some(ScriptWitnessType::PlutusScriptWitness(w)) => match idx_of(vals, g[j].0, vals.len() as int) { Some(i) => group_ptrs(vals, g.take(j), tag).push(with_ptr(w, i, tag)), None => group_ptrs(vals, g.take(j), tag) }, _ => group_ptrs(vals, g.take(j), tag) })
+{ assert(g.take(j + 1).drop_last() =~= g.take(j)); }
+pub proof fn lemma_spend_step(vals: Seq<InEntry>, t: Seq<(ScriptHash, WitEntries)>, i: int, tag: RedeemerTag)
+    requires 0 <= i < t.len() ensures spend_ptrs(vals, t.take(i + 1), tag) == spend_ptrs(vals, t.take(i), tag) + group_ptrs(vals, t[i].1@, tag)
+{ assert(t.take(i + 1).drop_last() =~= t.take(i)); }
+/// the index map the code builds while walking the first n inputs: exactly idx_of
+pub open spec fn map_ok<'a>(m: Map<&'a TransactionInput, BigNum>, vals: Seq<InEntry>, n: int) -> bool {
+    forall|k: &'a TransactionInput| (m.contains_key(k) <==> idx_of(vals, *k, n) is Some) && (m.contains_key(k) ==> m[k].0 == idx_of(vals, *k, n)->Some_0)
+}
